@@ -166,7 +166,11 @@ func ExecSeqHook(w coraza.WAF, req *Req, seq []string, after func(i int, tx type
 			}
 		}()
 		tx.ProcessConnection("10.0.0.1", 1234, "10.0.0.2", 80)
-		tx.ProcessURI(req.Path, req.Method, "HTTP/1.1")
+		uri := req.Path
+		if req.RawQuery != "" {
+			uri += "?" + req.RawQuery
+		}
+		tx.ProcessURI(uri, req.Method, "HTTP/1.1")
 		for _, kv := range req.Get {
 			tx.AddGetRequestArgument(kv.K, kv.V)
 		}
